@@ -25,7 +25,7 @@ MASK_SIZES_Q = [(8, 8), (12, 10), (6, 6)]
 
 def configs(tier, seed):
     out = [dict(c, mask=None) for c in C03.configs(tier, seed)]
-    for (h, w, J) in [(12, 16, 3), (16, 12, 3), (16, 20, 3), (20, 16, 3)] + ([(24, 20, 3), (14, 16, 3), (24, 16, 4)] if tier == 'thorough' else []):
+    for (h, w, J) in [(12, 16, 3), (16, 12, 3)] + ([(16, 20, 3), (20, 16, 3), (24, 20, 3), (14, 16, 3), (24, 16, 4)] if tier == 'thorough' else []):
         out.append(dict(biort='near_sym_a', qshift='qshift_a', J=J, H=h, W=w, B=1, C=1, mask=None))
     pairs = [('near_sym_a', 'qshift_a')] if tier == 'quick' else [('near_sym_a', 'qshift_a'), ('antonini', 'qshift_06'), ('near_sym_b', 'qshift_b')]
     sizes = MASK_SIZES_Q if tier == 'quick' else MASK_SIZES_Q + [(5, 7), (16, 12), (10, 10)]
